@@ -442,10 +442,28 @@ func propC19(c *Ctx) {
 	// ---- R19.3 ----------------------------------------------------------
 	c.Rule("R19.3", "a session is issued only on POST and only when subtle.ConstantTimeCompare(form password, h.password) == 1", 2)
 	login := w.Fn("shovel/web", "(*Handler).Login")
-	fPw := w.Field("shovel/web", "Handler", "password")
+	fPw := w.FieldMaybe("shovel/web", "Handler", "password")
 	// on the inlined view of Login: the comparison and the issuing of the
 	// session may each live in a helper (validPassword, startSession)
 	lreg := NewRegion(login)
+	if fPw == nil {
+		// the secret under another name (Handler.cred.secret): the []byte member that the constant-time
+		// comparison in Login reads
+		for _, ci := range lreg.Calls() {
+			call, isCall := ci.(*ssa.Call)
+			if !isCall || calleeName(call) != "crypto/subtle.ConstantTimeCompare" {
+				continue
+			}
+			for _, a := range call.Call.Args {
+				if lf, _ := loadedField(stripConv(a)); lf != nil && lf.Pkg() == login.Pkg.Pkg {
+					fPw = lf
+				}
+			}
+		}
+		if fPw == nil {
+			fatalf("anchor: field shovel/web.Handler.password not found")
+		}
+	}
 	var cmpOK []Edge
 	cmpSeen := false
 	for _, ci := range lreg.Calls() {
